@@ -203,6 +203,15 @@ pub fn subs() -> Vec<Box<dyn AnySub>> {
             },
             check: check_large,
         }),
+        Box::new(EnumSub { name: "fold-uri-limit-sweep", exhaustive: true, list: limit_sweep, check: check_limit }),
+        Box::new(Sub { name: "requests-with-trace-logging", quick: 20_000, thorough: 300_000, strat: any_case, check: check_any_logged }),
+        Box::new(Sub {
+            name: "valid-then-broken-with-trace-logging",
+            quick: 10_000,
+            thorough: 150_000,
+            strat: || (plan(PlanOpts::default()), super::c01::mutation()).prop_map(|(plan, mutation)| super::c01::Mutated { plan, mutation }).boxed(),
+            check: check_mutated_logged,
+        }),
         Box::new(Sub { name: "direct", quick: 40_000, thorough: 600_000, strat: direct, check: check_direct }),
         Box::new(EnumSub {
             name: "timestamps",
@@ -630,4 +639,79 @@ pub fn check_future_service(p: &Plan, cc: &mut CaseCtx) -> CheckResult {
         Ok((None, _)) => Err(Failure::new("hang", "validation did not complete")),
         Ok(_) => Ok(()),
     }
+}
+
+#[derive(Clone, Debug, Serialize, Deserialize)]
+pub struct LimitCase {
+    /// length of the merged path-and-query after folding
+    pub total: usize,
+    /// reach it with characters that triple when re-encoded
+    pub tripling: bool,
+    pub path_len: usize,
+}
+
+/// Every merged length around the http crate's URI cap (65534), reached in several ways.
+fn limit_sweep(_t: Tier) -> Vec<LimitCase> {
+    let mut out = Vec::new();
+    for total in 65_480..=65_600usize {
+        for tripling in [false, true] {
+            for path_len in [1usize, 40] {
+                out.push(LimitCase { total, tripling, path_len });
+            }
+        }
+    }
+    out
+}
+
+pub fn check_limit(lc: &LimitCase, cc: &mut CaseCtx) -> CheckResult {
+    // path "/" or "/ppp...": path_len bytes; query "k=v&z=" + filler
+    let path = format!("/{}", "p".repeat(lc.path_len - 1));
+    let fixed = path.len() + 1 + "k=v&z=".len();
+    if lc.total <= fixed {
+        return Ok(());
+    }
+    let want = lc.total - fixed;
+    let (filler, canon_len) = if lc.tripling { ("*".repeat(want / 3), want / 3 * 3) } else { ("a".repeat(want), want) };
+    let pad = "b".repeat(want - canon_len);
+    let body = format!("z={}{}", filler, pad);
+    let req = WireRequest {
+        method: "POST".into(),
+        uri: format!("{}?k=v", path),
+        version: 11,
+        headers: vec![("Host".into(), B::from("h.example")), ("Content-Type".into(), B::from("application/x-www-form-urlencoded"))],
+        body: B(body.into_bytes()),
+    };
+    let case = Case { req, cfg: ServerConfig { fold: true, ..ServerConfig::default() }, prov: ProviderScript::default() };
+    let a = crate::model::verify::analyze(&case);
+    let merged = a.canonical_path.as_ref().map(|p| p.len()).unwrap_or(0) + 1 + a.canonical_query.as_ref().map(|q| q.len()).unwrap_or(0);
+    if merged != lc.total {
+        return Err(harness_bug(format!("limit sweep built a merged length of {} instead of {}", merged, lc.total)));
+    }
+    let o = exec::run(&case);
+    cc.class(if lc.total <= 65_534 { "fits" } else { "over-the-limit" });
+    cc.nontrivial(digest_of(&[format!("{:?}", lc).as_bytes()]));
+    if (65_533..=65_536).contains(&lc.total) {
+        cc.sample(json!({"merged_length": lc.total, "tripling": lc.tripling, "path_len": lc.path_len, "crate": o.res.short().chars().take(120).collect::<String>()}));
+    }
+    check_total(&o)?;
+    if let exec::Res::Err(e) = &o.res {
+        check_taxonomy(e)?;
+    }
+    Ok(())
+}
+
+/// The same arbitrary requests with a TRACE-level logger that renders every record: the formatting code behind
+/// `trace!` / `debug!` (Debug impls of internal values) runs on hostile input too.
+pub fn check_any_logged(ac: &AnyCase, cc: &mut CaseCtx) -> CheckResult {
+    exec::enable_log_capture();
+    let (r, logs) = exec::with_logs(|| check_any(ac, cc));
+    cc.class_if(!logs.is_empty(), "records-rendered");
+    r
+}
+
+pub fn check_mutated_logged(mc: &super::c01::Mutated, cc: &mut CaseCtx) -> CheckResult {
+    exec::enable_log_capture();
+    let (r, logs) = exec::with_logs(|| check_mutated_total(mc, cc));
+    cc.class_if(!logs.is_empty(), "records-rendered");
+    r
 }
